@@ -28,6 +28,12 @@ struct Q {
     last_tx: Option<i64>,
     last_gap: Option<i64>,
     tx_count: u32,
+    /// destinations in the order they were first used, with the instant of the first transmission
+    dests: Vec<(IpAddr, i64)>,
+    /// responses of any kind delivered for this query
+    responses_delivered: u32,
+    /// the scripted server never answers this query (pure time-out behaviour)
+    silent: bool,
 }
 
 struct C<'a> {
@@ -65,6 +71,12 @@ pub fn run(tape: &mut Tape, props: Props, thorough: bool, trace_on: bool) -> Out
     let v6 = tape.draw(2) == 1;
     let mut cfg = NodeCfg::basic('V', Medium::Ip, 1500, 1, v6);
     cfg.seed = 9 + tape.draw(1 << 20);
+    // dual-stack nodes reach both mDNS groups, i.e. two destinations with a fail-over in between
+    let dual = tape.draw(3) == 2;
+    if dual {
+        let other = NodeCfg::basic('V', Medium::Ip, 1500, 1, !v6);
+        cfg.addrs.push(other.addrs[0]);
+    }
     let mut node = build_node(&cfg);
     let view = cfg.view();
     let v = cfg.addrs[0].0;
@@ -84,7 +96,7 @@ pub fn run(tape: &mut Tape, props: Props, thorough: bool, trace_on: bool) -> Out
     let smol_servers: Vec<smoltcp::wire::IpAddress> = servers.iter().map(to_smol).collect();
     let sock = dns::Socket::new(&smol_servers, vec![]);
     let h = node.sockets.add(sock);
-    let desc = format!("dns v6={} servers={:?}", v6, servers);
+    let desc = format!("dns dual-stack={} v6={} servers={:?}", dual, v6, servers);
     let mut c = C { tape, props, node, view, now: 1_000_000, stats: Stats::default(), hash: LogHash::new(), trace: vec![], trace_on, events: 0, v, servers: servers[..1].to_vec(), h, qs: vec![], pending_rx: vec![] };
     let r = body(&mut c, thorough);
     let nontrivial = c.stats.get("dns.responses-sent") >= 2 && c.stats.get("dns.queries-started") >= 1;
@@ -100,7 +112,11 @@ fn start_query(c: &mut C) -> Result<(), Violation> {
     let r = guard("dns::start_query", || s.start_query(cx, name, qt))?;
     if let Ok(handle) = r {
         c.stats.inc("dns.queries-started");
-        c.qs.push(Q { handle, name: labels(name), qtype: if qt == DnsQueryType::A { T_A } else { T_AAAA }, started: c.now, done: false, mdns: name.ends_with(".local"), port: None, txid: None, justified: vec![], neg: false, last_tx: None, last_gap: None, tx_count: 0 });
+        c.qs.push(Q { handle, name: labels(name), qtype: if qt == DnsQueryType::A { T_A } else { T_AAAA }, started: c.now, done: false, mdns: name.ends_with(".local"), port: None, txid: None, justified: vec![], neg: false, last_tx: None, last_gap: None, tx_count: 0, dests: vec![], responses_delivered: 0, silent: false });
+        if c.tape.draw(6) == 5 {
+            c.qs.last_mut().unwrap().silent = true;
+            c.stats.inc("dns.silent-server-queries");
+        }
         let n = name.to_string();
         c.log(|| format!("start_query {} {:?}", n, qt));
     }
@@ -144,6 +160,15 @@ fn poll(c: &mut C) -> Result<(), Violation> {
             }
             qq.last_tx = Some(now);
             qq.tx_count += 1;
+            // fail-over: "moving to the next server after 10 s" - not earlier when nothing was heard
+            if qq.dests.last().map(|d| d.0 != ip.dst).unwrap_or(true) {
+                if let Some((prev, t0)) = qq.dests.last() {
+                    if c.props.has("C19") && qq.responses_delivered == 0 && now - *t0 < 10_000_000 {
+                        return Err(viol("C19", "failover", "C19.failover/next-server-before-10s", format!("query {:?} moved from {} to {} only {} us after its first transmission to the former, without any response", qq.name, prev, ip.dst, now - *t0)));
+                    }
+                }
+                qq.dests.push((ip.dst, now));
+            }
             c.stats.inc("dns.query-transmissions");
             // the scripted server reacts
             let (dst, qsrc) = (ip.dst, ip.src);
@@ -194,7 +219,7 @@ fn respond(c: &mut C, qi: usize, server: IpAddr, victim: IpAddr, mdns: bool) -> 
         (q.name.clone(), q.qtype, q.port.unwrap(), q.txid.unwrap())
     };
     let kind = c.tape.draw(16);
-    if kind == 0 || kind == 1 {
+    if kind == 0 || kind == 1 || c.qs[qi].silent {
         c.stats.inc("dns.response-withheld");
         return Ok(());
     }
@@ -410,6 +435,16 @@ fn check_results(c: &mut C) -> Result<(), Violation> {
             Err(dns::GetQueryResultError::Failed) => {
                 c.qs[i].done = true;
                 c.stats.inc("dns.completed-failed");
+                // a query that heard nothing fails by time-out only: not before its last server had its 10 s
+                let q = &c.qs[i];
+                if c.props.has("C19") && q.responses_delivered == 0 {
+                    if let Some((d, t0)) = q.dests.last() {
+                        if c.now - *t0 < 10_000_000 {
+                            return Err(viol("C19", "failover", "C19.failover/failed-before-10s-on-last-server", format!("query {:?} failed {} us after its first transmission to {} (destinations used: {:?}) without any response having arrived", q.name, c.now - *t0, d, q.dests)));
+                        }
+                    }
+                    c.stats.inc("dns.failed-by-timeout-checked");
+                }
             }
         }
     }
@@ -484,6 +519,7 @@ fn body(c: &mut C, thorough: bool) -> Result<(), Violation> {
                 out
             });
             for (qi, just, neg) in js {
+                c.qs[qi].responses_delivered += 1;
                 if let Some(j) = just {
                     c.qs[qi].justified.push(j);
                 }
